@@ -14,6 +14,7 @@ import (
 
 	"github.com/saucelabs/forwarder/ruleset"
 	"github.com/saucelabs/forwarder/verifharness/core"
+	"github.com/saucelabs/forwarder/verifharness/rig"
 )
 
 func init() { core.Register("C17", core.Scenario{Run: Run, Replay: Replay}) }
@@ -390,6 +391,7 @@ type implOut struct {
 	match   []bool
 	inv     []bool
 	inv2    []bool
+	history string // first inconsistency between query orders ("" if none)
 }
 
 func runImpl(raws []string, hosts []string) (o implOut) {
@@ -423,6 +425,22 @@ func runImpl(raws []string, hosts []string) (o implOut) {
 		o.match = append(o.match, m.Match(h))
 		o.inv = append(o.inv, mi.Match(h))
 		o.inv2 = append(o.inv2, mii.Match(h))
+	}
+	// the matcher is a function of (rules, host): a second matcher built from the same rules, queried
+	// in another order (inverse first, repeated queries), must give the same answers
+	if m2, err := ruleset.NewRegexpMatcherFromList(items); err == nil {
+		for i, h := range hosts {
+			a1 := m2.Inverse().Match(h)
+			a2 := m2.Inverse().Match(h)
+			a3 := m2.Match(h)
+			a4 := m2.Inverse().Inverse().Match(h)
+			a5 := m2.Match(h)
+			if a1 != o.inv[i] || a2 != o.inv[i] || a3 != o.match[i] || a4 != o.match[i] || a5 != o.match[i] {
+				o.history = fmt.Sprintf("host %q: first pass match=%v inverse=%v; inverse-first pass gave inverse=%v,%v match=%v inverse.inverse=%v match=%v",
+					h, o.match[i], o.inv[i], a1, a2, a3, a4, a5)
+				break
+			}
+		}
 	}
 	return o
 }
@@ -501,6 +519,9 @@ func checkList(ctx *core.Ctx, lc listCase) {
 	}
 
 	o := runImpl(raws, hosts)
+	if o.history != "" {
+		ctx.SpecFail("the answer for a host is a function of the rule list and the host (not of earlier queries)", "", lc, o.history, "")
+	}
 	if o.crash != "" {
 		ctx.Crash("rule list construction and matching never panic", "", lc, o.crash)
 		return
@@ -838,6 +859,16 @@ func Run(ctx *core.Ctx) {
 			ctx.Sample(lc)
 		}
 	}
+	// the same property through the real binary's --deny-domains flag
+	nBin := ctx.N(10, 120)
+	for i := 0; i < nBin; i++ {
+		bc := genBin(ctx.Rng.Sub())
+		runBin(ctx, bc)
+		if i == 0 {
+			ctx.Sample(bc)
+		}
+	}
+	rig.RemoveBinary()
 	for i := 0; i < nItem; i++ {
 		r := ctx.Rng.Sub()
 		ic := genItem(r)
@@ -863,6 +894,11 @@ func Replay(ctx *core.Ctx, raw json.RawMessage) {
 		var ic itemCase
 		json.Unmarshal(raw, &ic)
 		checkItem(ctx, ic)
+	case "binary":
+		var bc binCase
+		json.Unmarshal(raw, &bc)
+		runBin(ctx, bc)
+		rig.RemoveBinary()
 	default:
 		core.Fatalf("C17: unknown case kind %q", k.Kind)
 	}
